@@ -1,17 +1,24 @@
 (* Correspondence cases for C41: the real VerifyConnection callback / real TLS handshakes. *)
 From Coq Require Import List ZArith Bool.
-Require Export MTX.Model.C41_Tls.
+Require Export MTX.Model.C41_Tls MTX.Model.C41_Sites.
 Import ListNotations.
 Local Open Scope Z_scope.
 
 (* fingerprint string, SHA-256 of the presented leaf certificate (oracle, 32 bytes), was a pinning config installed,
    did the connection / callback succeed *)
-Inductive case := V (fingerprint digest : list Z) (installed accepted : bool).
+Inductive case :=
+| V (fingerprint digest : list Z) (installed accepted : bool)
+  (* a real call site `s` run with the configured fingerprint against a local TLS / QUIC server reached as `host`:
+     digest = SHA-256 of the leaf the server presents (oracle), ca = does ordinary verification (x509, system roots,
+     name `host`) accept the presented chain (oracle), accepted = did the server see the handshake complete *)
+| S (s : site) (fingerprint host digest : list Z) (ca accepted : bool).
 
 Definition mismatch (c : case) : bool :=
   match c with
   | V fp d installed accepted =>
       negb (Bool.eqb installed (pinned fp)) || (installed && negb (Bool.eqb accepted (verify fp d)))
+  | S s fp host d ca accepted =>
+      negb (Bool.eqb accepted (connect s fp host d (fun name => bytes_eqb name host && ca)))
   end.
 
 (* independent statement of the property: accepted iff the fingerprint spells, in hex of either case, the digest *)
@@ -34,5 +41,10 @@ Definition spec_fail (c : case) : bool :=
       match fp with
       | [] => installed                       (* no fingerprint: no pinning config *)
       | _ => negb installed || negb (Bool.eqb accepted (spells fp d))
+      end
+  | S _ fp _ d ca accepted =>
+      match fp with
+      | [] => negb (Bool.eqb accepted ca)     (* no fingerprint: ordinary verification decides, nothing is weakened *)
+      | _ => negb (Bool.eqb accepted (spells fp d))   (* fingerprint: the leaf's digest decides, whatever the chain *)
       end
   end.
